@@ -1,6 +1,7 @@
 import AikenVerif.Lemmas.CekNoPanic
 import AikenVerif.Lemmas.CekTerminates
 import AikenVerif.Lemmas.CostNonneg
+import AikenVerif.Lemmas.FlatWt
 /-!
 # C10 — evaluation never crashes: property theorems (evaluator part)
 
@@ -153,6 +154,18 @@ example :
     stepsPositive cm = true ∧ stepsPositive cm0 = false ∧
     run ⟨cm, .E, 5⟩ 40 ⟨1000, 100000⟩ (.app w w) = .oob := by
   exact ⟨rfl, rfl, rfl⟩
+
+/-- **C10, "decoded from untrusted bytes"**: whatever bytes are given, if the flat decoder (model of
+`flat.rs`, either the unchanged or the repaired pallas reading mode) returns a program, then that
+program meets the hypothesis of the theorems above (`fromFlat_wt`: list items are decoded BY the
+declared element type) — so its evaluation under any finite budget ends with a term, an evaluation
+error or budget exhaustion; it neither panics nor runs forever. -/
+theorem decoded_program_never_crashes (cfg : Config) (h1 : stepsPositive cfg.costs = true)
+    (h2 : builtinsNonneg cfg.costs = true) (cd : Flat.DataCodec) (m : Flat.Mode) (bytes : Bytes)
+    (p : Program NamedDeBruijn) (hdec : Flat.fromFlat cd m bytes = .ok p) (budget : ExBudget) :
+    ∃ fuel, (∃ a r, run cfg fuel budget p.term = .done a r) ∨ run cfg fuel budget p.term = .fail ∨
+      run cfg fuel budget p.term = .oob ∨ run cfg fuel budget p.term = .unmodelled :=
+  cek_total cfg (posCosts_of_checks cfg.costs cfg.sem h1 h2) budget p.term (Flat.fromFlat_wt cd m bytes p hdec)
 
 /-- reading back the final value is a total function (no fuel, no failure case) -/
 theorem discharge_total (v : Value) : ∃ t, valueAsTerm v = t := ⟨_, rfl⟩
